@@ -3,7 +3,8 @@
        segs  = d:hex,d:hex,...  or -          sched = R | C<count>:<size>/<size>... | L<count> | X | S  joined by ','  or -
      -> parts "P <name=value;...|-> <data> <eof01>" joined by " | ", then " | END" / " | ERR <class>" / " | UNMODELLED"
    SIZE <boundary> <parts>   parts = headers:body:identity01,...  or -     -> NONE | SOME <n>
-   ENC  <boundary> <parts>   -> hex *)
+   ENC  <boundary> <parts>   -> hex
+   SPEC <boundary> <wire>    -> NONE | SOME <block>,<block>,...   (specification-level splitter) *)
 let split_on c s = if s = "-" || s = "" then [] else String.split_on_char c s
 let seg_of tok = match String.split_on_char ':' tok with
   | [d; h] -> (n_of_int (int_of_string d), bytes_of_hex h)
@@ -42,5 +43,8 @@ let handle line =
     (match size (bytes_of_hex b) (List.map wpart_of (split_on ',' parts)) with
      | None -> "NONE" | Some n -> "SOME " ^ string_of_int (int_of_n n))
   | ["ENC"; b; parts] -> hex_of_bytes (encode (bytes_of_hex b) (List.map wpart_of (split_on ',' parts)))
+  | ["SPEC"; b; w] ->
+    (match spec_decode (bytes_of_hex b) (bytes_of_hex w) with
+     | None -> "NONE" | Some l -> "SOME " ^ String.concat "," (List.map hex_of_bytes l))
   | _ -> "BADREQ"
 let () = serve handle
